@@ -1059,6 +1059,62 @@ def leg_string_bounds(report):
                                      f"bare {model} of module {mname}: {type(e).__name__}: {str(e)[:100]}", case)
 
 
+IMPORTED_TYPEVAR_SRC = """
+from dataclasses import dataclass
+from typing import Generic, List
+from c16_tv_home import B, C
+
+@dataclass
+class Item:
+    other: str
+
+@dataclass
+class Holder(Generic[B]):
+    x: B
+
+@dataclass
+class Either(Generic[C]):
+    x: C
+"""
+
+
+def leg_imported_typevar(report):
+    """a string bound names a class of the module that DEFINES the TypeVar, also when the generic model lives in another module
+    that has a class of the same name"""
+    from adaptix import Retort
+    from adaptix.load_error import LoadError
+    home = types.ModuleType("c16_tv_home")
+    sys.modules[home.__name__] = home
+    exec(TWO_MODULE_SRC.format(field="a", ftype="int"), home.__dict__)  # noqa: S102
+    user = types.ModuleType("c16_tv_user")
+    sys.modules[user.__name__] = user
+    exec(IMPORTED_TYPEVAR_SRC, user.__dict__)  # noqa: S102
+    retort = Retort()
+    for model in ("Holder", "Either"):
+        cls = getattr(user, model)
+        case = {"leg": "imported_typevar", "model": model}
+        report.case(("imported_typevar", model), nontrivial=True, sample=case)
+        report.evaluations += 2
+        try:
+            obj = retort.load({"x": {"a": 1}}, cls)
+            ok, what = type(obj.x) is home.Item, f"loaded {obj!r}"
+        except Exception as e:  # noqa: BLE001
+            ok, what = False, f"raised {type(e).__name__}: {str(e)[:100]}"
+        if not ok:
+            report.violation({"check": "C16.string_bounds", "problem": "bound_of_imported_typevar", "model": model},
+                             f"bare {model}(Generic[B]) where B = TypeVar('B', bound='Item') is imported from another module: data fitting "
+                             f"the Item of the TypeVar's module: {what}", case)
+        try:
+            retort.load({"x": {"other": "s"}}, cls)
+            report.violation({"check": "C16.string_bounds", "problem": "bound_of_imported_typevar", "model": model},
+                             f"bare {model}: accepts data fitting only the class called Item in the model's own module", case)
+        except LoadError:
+            report.outcome("imported_typevar:foreign rejected")
+        except Exception as e:  # noqa: BLE001
+            report.violation({"check": "C16.string_bounds", "problem": "error", "model": model},
+                             f"bare {model} (imported TypeVar): {type(e).__name__}: {str(e)[:100]}", case)
+
+
 def run(tier):
     report = Report()
     n = sum(1 for _ in enumerate_specs(tier))
@@ -1066,6 +1122,7 @@ def run(tier):
     parallel.run_shards(shard, [(tier, i) for i in range(N_SHARDS)], report=report)
     fold_violations(report)
     leg_string_bounds(report)
+    leg_imported_typevar(report)
     return report
 
 
